@@ -52,3 +52,7 @@ def static_facts(repo):
     unknown = sorted(W - RESET - PER_FILE_INIT - ARGS_ONLY - set(REVIEWED))
     return [('every cp_data_t field written under src/ is classified (reset by uncrustify_end / initialised per file / argument parsing only / reviewed)',
              not unknown, 'unclassified: %s' % unknown if unknown else 'W=%d fields' % len(W))]
+
+sys.path.insert(0, os.path.join(os.path.dirname(os.path.abspath(__file__)), '..', '..', 'tools'))
+import replay_lib  # noqa: E402
+REPLAY = replay_lib.make_replay(replay_lib.scenario_lang_leak)
